@@ -25,16 +25,26 @@ RULE = ('cases = (dependency graph, request list, default target): all labelled 
         '(all 1024 edge subsets of a linear order, renamed by a seeded permutation; quick: 120 of them) x 31 request subsets; '
         'thorough adds the 9608 loop-free classes on 5 targets x 31 request subsets. Oracle-only sweep: all labelled loop-free digraphs on 4 targets '
         '(quick), all 65536 labelled digraphs on 4 targets (thorough). distinct non-trivial = distinct (graph, request) whose '
-        'reachable part has at least one dependency edge')
+        'reachable part has at least one dependency edge. Runs with raising tasks (Model.TasksExec): all 25 labelled acyclic graphs on 3 '
+        'targets x 7 request subsets x (no raising task | exactly one raising task: 3 targets x task index 0/1 of 2; quick: index 1 only), plus seeded graphs '
+        'on 3..5 targets (mostly acyclic, some cyclic/undefined) with 0..3 tasks per target each raising with p = 0.18, random request '
+        'lists/defaults (quick 300, thorough 3000); these count as non-trivial when a task raised and a requested target has a dependency')
 EXPLANATION = ('Unbounded Coq theorems (every graph, every dependency/request order, every default) about the hand model of the '
                'fixed tasks.py: history has no repetition, is exactly the reachable set, respects every dependency edge; error iff '
                'reachable cycle or undefined target; error kind is truthful; termination within fuel = #targets + 1. Two theorems '
                'refute the same requirements on the model of the original code (diamond reported as loop; sort() with a partial '
-               'order leaves a target before its dependency). Correspondence and oracle sweep tie the model to the implementation.')
+               'order leaves a target before its dependency). Correspondence and oracle sweep tie the model to the implementation. '
+               'Model.TasksExec adds the "Run tasks" loop of TaskRunner.run with tasks that may raise (task = does run() raise; event = '
+               'task i of target n entered): the failed target is reachable and has a raising task and no transitive dependant of it '
+               'starts; every transitive dependency of a started target has run all its tasks without raising; a run without failure '
+               'has run every task of exactly the reachable targets. Not modelled: expand_macros on task arguments, get_task lookup failures.')
 TRUSTED = ['hand model coq/Model/Tasks.v == ppci/build/tasks.py (checked per run on the exhaustive small-graph families, not proved)',
            'target names abstracted to integers: the code uses only ==, hash and set/dict/list membership on names',
            'a Python set is modelled as a list in its iteration order; the theorems quantify over all orders',
-           'executing a target = running its tasks in sequence; tasks are assumed not to raise and not to change the project',
+           'executing a target = running its tasks in sequence; Model.Tasks: tasks do not raise; Model.TasksExec: a task either '
+           'returns or raises (the exception leaves TaskRunner.run); tasks never change the project',
+           'hand model coq/Model/TasksExec.v == the task loop of TaskRunner.run (checked per run against the real TaskRunner with '
+           'recording tasks that raise TaskError on demand: event history and failed target)',
            'Orig model only: CPython 3.12 list.sort() for n < 64 = count_run (reverse if strictly descending) + binary insertion '
            'using only x < y; Target defines only __gt__, so x < y is evaluated as y.__gt__(x) (reflected operand); '
            'project.dependencies() is pure, so tabulating it per sort is equivalent',
@@ -60,6 +70,15 @@ def _worker_setup():
     class C34RecordTask(T.Task):                       # registered as "c34record"
         def run(self):
             hist.append(self.arguments['name'])
+
+    events = []
+
+    @T.register_task
+    class C34FailTask(T.Task):                         # registered as "c34fail"
+        def run(self):
+            events.append([self.arguments['name'], int(self.arguments['idx'])])
+            if self.arguments['fail'] == '1':
+                raise T.TaskError('c34fail:%s:%s' % (self.arguments['name'], self.arguments['idx']))
 
     class RecProject(T.Project):
         """records get_target calls made outside dfs/dependencies/target_order (= the final lookups)"""
@@ -87,6 +106,7 @@ def _worker_setup():
         setattr(RecProject, name, wrapped)
     for nm in ('dfs', 'dependencies', 'target_order', 'check_target'):
         nest(nm)
+    RecProject.c34_events = events
     return T, hist, RecProject
 
 
@@ -122,6 +142,146 @@ def impl_run(env, graph, req, dflt, has_default=True):
     except Exception as ex:   # noqa: BLE001
         out = ['internal', type(ex).__name__ + ': ' + str(ex)[:100], list(hist)]
     return out, orders, list(p.top)
+
+
+def impl_run_fail(env, graph, tk, req, dflt):
+    """graph: list of (name, [deps]); tk: list of (name, [raises?, ...]) — the tasks of each target.
+    returns (outcome, dep_orders); outcome = ['ok', events, None] | ['fail', events, target] | ['loop'|'notfound'|'internal', msg, events]"""
+    T, hist, RecProject = env
+    events = RecProject.c34_events
+    p = RecProject('c34')
+    p.default = dflt
+    tkd = dict(tk)
+    tg = {}
+    for n, ds in graph:
+        t = T.Target(n, p)
+        for d in ds:
+            t.add_dependency(d)
+        for i, raises in enumerate(tkd.get(n, [])):
+            t.add_task(('c34fail', {'name': n, 'idx': str(i), 'fail': '1' if raises else '0'}))
+        p.add_target(t)
+        tg[n] = t
+    orders = [[n, list(tg[n].dependencies)] for n, _ in graph]
+    del events[:]
+    try:
+        T.TaskRunner().run(p, list(req))
+        out = ['ok', [list(e) for e in events], None]
+    except T.TaskError as ex:
+        msg = str(getattr(ex, 'msg', ex))
+        if msg.startswith('c34fail:'):
+            out = ['fail', [list(e) for e in events], msg.split(':')[1]]
+        elif 'loop' in msg.lower():
+            out = ['loop', msg, [list(e) for e in events]]
+        elif 'not found' in msg.lower():
+            out = ['notfound', msg, [list(e) for e in events]]
+        else:
+            out = ['internal', 'TaskError: ' + msg, [list(e) for e in events]]
+    except RecursionError:
+        out = ['internal', 'RecursionError', [list(e) for e in events]]
+    except Exception as ex:   # noqa: BLE001
+        out = ['internal', type(ex).__name__ + ': ' + str(ex)[:100], [list(e) for e in events]]
+    return out, orders
+
+
+def oracle_fail(graph, tk, req, out):
+    """independent reading of the three run-with-failing-tasks theorems; None when satisfied"""
+    g, reach, missing, cyc = spec_facts(graph, req)
+    tkd = dict(tk)
+    kind = out[0]
+    if kind == 'internal':
+        return 'unexpected exception ' + out[1]
+    if kind in ('loop', 'notfound'):
+        if out[2]:
+            return 'tasks were run before the error was reported'
+        if (kind == 'loop' and not cyc) or (kind == 'notfound' and not missing):
+            return 'error reported without cause'
+        return None
+    if cyc or missing:
+        return 'reachable cycle or undefined target not reported'
+    ev, f = [tuple(e) for e in out[1]], out[2]
+
+    def closure(n):
+        seen, todo = set(), list(g[n])
+        while todo:
+            m = todo.pop()
+            if m not in seen:
+                seen.add(m)
+                todo.extend(g[m])
+        return seen
+
+    def complete(n):
+        ts = tkd.get(n, [])
+        return not any(ts) and all((n, j) in ev for j in range(len(ts)))
+    started = {n for n, _ in ev}
+    if len(set(ev)) != len(ev):
+        return 'a task was run twice'
+    if not started <= reach:
+        return 'a task of a target outside the requested targets and their dependencies was run'
+    for a in sorted(started):
+        for b in sorted(closure(a)):
+            if not complete(b):
+                return 'target %s started although its dependency %s had not completed' % (a, b)
+    if kind == 'fail':
+        if f not in reach or not any(tkd.get(f, [])):
+            return 'reported failing target %s is not a reachable target with a raising task' % f
+        for a in sorted(started):
+            if f in closure(a):
+                return 'target %s started although its dependency %s failed' % (a, f)
+    else:
+        for n in sorted(reach):
+            if not complete(n):
+                return 'run reported success but target %s has a raising or unexecuted task' % n
+    return None
+
+
+def fail_family(env, spec, rng):
+    """runs with tasks that may raise: exhaustive on labelled loop-free graphs on 3 targets, seeded beyond"""
+    cases = []
+    if spec['kind'] == 'failing-exhaustive':
+        n = spec['n']
+        for m in range(1 << (n * (n - 1))):
+            g = graph_of_mask(n, offdiag_mask_to_full(n, m))
+            if spec_facts(g, NAMES[:n])[3]:
+                continue                # cycles are covered by the main families and the seeded family below
+            for req in subsets(n):
+                for bad in [None] + [(i, k) for i in range(n) for k in ((1,) if spec.get('quick') else (0, 1))]:
+                    tk = [(NAMES[i], [(i, 0) == bad, (i, 1) == bad]) for i in range(n)]
+                    cases.append((g, tk, req, None))
+    else:
+        for _ in range(spec['count']):
+            n = rng.choice([3, 4, 5])
+            mask = rng.getrandbits(n * n) & rng.getrandbits(n * n)
+            if rng.random() < 0.85:
+                mask &= sum(1 << (i * n + j) for i in range(n) for j in range(n) if i < j)
+            g = graph_of_mask(n, mask)
+            if rng.random() < 0.1:
+                g[rng.randrange(n)][1].append('zz')
+            rng.shuffle(g)
+            tk = []
+            for nm in NAMES[:n]:
+                if rng.random() < 0.85:
+                    tk.append((nm, [rng.random() < 0.18 for _ in range(rng.randrange(0, 4))]))
+            req = rng.sample(NAMES[:n], rng.randrange(0, n + 1))
+            dflt = rng.choice(NAMES[:n]) if (not req or rng.random() < 0.2) and rng.random() < 0.8 else None
+            cases.append((g, tk, req, dflt))
+    recs, fails = [], []
+    dist = {'ok': 0, 'fail': 0, 'loop': 0, 'notfound': 0, 'internal': 0}
+    nontrivial = 0
+    for g, tk, req, dflt in cases:
+        out, orders = impl_run_fail(env, g, tk, req, dflt)
+        dist[out[0]] += 1
+        eff = req if req else ([dflt] if dflt else [])
+        gd = dict(g)
+        if out[0] == 'fail' and any(gd.get(r) for r in eff):
+            nontrivial += 1
+        why = oracle_fail(g, tk, eff, out)
+        if why and len(fails) < 40:
+            fails.append({'graph': g, 'tasks': tk, 'req': req, 'dflt': dflt, 'out': out, 'why': why})
+        elif why:
+            fails.append(None)
+        recs.append({'g': orders, 'tk': tk, 'req': req, 'dflt': dflt, 'out': out})
+    return {'spec': spec, 'count': len(cases), 'nontrivial': nontrivial, 'dist': dist,
+            'nfail': len(fails), 'fails': [f for f in fails if f], 'records': recs}
 
 
 # ---- independent reading of Spec/BuildSpec.v -------------------------------------------------
@@ -318,6 +478,9 @@ def worker(plan_path, out_path):
     rng = random.Random(plan['seed'])
     res = {'python': sys.version.split()[0], 'hashseed': os.environ.get('PYTHONHASHSEED'), 'families': []}
     for spec in plan['families']:
+        if spec['kind'].startswith('failing'):
+            res['families'].append(fail_family(env, spec, rng))
+            continue
         recs, fails = [], []
         count = nontrivial = 0
         dist = {'ok': 0, 'loop': 0, 'notfound': 0, 'internal': 0}
@@ -526,12 +689,76 @@ def replay_witnesses(ctx):
     return present
 
 
+def exec_out_val(out):
+    from vlib import Rec, Internal
+    if out[0] in ('ok', 'fail'):
+        return Rec((0, [Rec((NUM[n], i)) for n, i in out[1]], None if out[2] is None else NUM[out[2]]))
+    if out[0] == 'loop':
+        return Rec((1,))
+    if out[0] == 'notfound':
+        return Rec((2,))
+    return Internal
+
+
+def report_fail(ctx, fam_name, f):
+    g = {n: ds for n, ds in f['graph']}
+    tk = {n: ts for n, ts in f['tasks']}
+    ctx.violation({'fn': 'TaskRunner.run', 'what': f['why'], 'key': 'failing-task ' + f['why'].split(' ')[0],
+                   'args': {'graph': g, 'tasks': tk, 'targets': f['req'], 'default': f['dflt']},
+                   'actual': f['out'], 'family': fam_name,
+                   'expected': 'a raising task stops the run; every started target has all transitive dependencies completed; '
+                               'no dependant of the failed target starts; without failure every reachable task runs',
+                   'how_to_replay': './check C34 --replay <this file>  (runs c34.impl_run_fail + c34.oracle_fail on the real TaskRunner)'})
+
+
+def failing_stage(ctx):
+    """the "Run tasks" loop with tasks that raise: implementation vs Model.TasksExec.run_exec + oracle"""
+    res = run_worker(ctx, 'failing', [
+        {'kind': 'failing-exhaustive', 'n': 3, 'quick': ctx.quick(), 'name': 'failing-labelled-3-acyclic'},
+        {'kind': 'failing-random', 'count': 300 if ctx.quick() else 3000, 'name': 'failing-random-3to5'}], 0)
+    if res is None:
+        return
+    cases, members = [], []
+    for fam in res['families']:
+        name = fam['spec']['name']
+        ctx.cov['stages']['family_' + name] = {'runs': fam['count'], 'outcomes': fam['dist'], 'oracle_failures': fam['nfail']}
+        ctx.cov['evaluations'] += fam['count']
+        ctx.cov['distinct_nontrivial'] += fam['nontrivial']
+        for f in fam['fails'][:4]:
+            report_fail(ctx, name, f)
+        for r in fam['records']:
+            d = 'None' if not r['dflt'] else '(Some %d)' % NUM[r['dflt']]
+            tk = '[%s]' % '; '.join('(%d, [%s])' % (NUM[n], '; '.join('true' if b else 'false' for b in ts)) for n, ts in r['tk'])
+            cases.append(('show_exec (run_exec (%s : graph) (%s : taskmap) %s %s)' % (graph_term(r['g']), tk, d, zlist(r['req'])),
+                          exec_out_val(r['out'])))
+            members.append(r)
+    for r in members[:: max(1, len(members) // 3)][:3]:
+        ctx.note_sample({'graph': dict((n, ds) for n, ds in r['g']), 'tasks_raise': dict(r['tk']), 'targets': r['req'],
+                         'default': r['dflt'], 'impl': r['out']})
+    ctx.cov['stages']['correspondence_failing_cases'] = len(cases)
+    ctx.cov['evaluations'] -= len(cases)
+    from concurrent.futures import ThreadPoolExecutor
+    step = 350
+    parts = [cases[i:i + step] for i in range(0, len(cases), step)]
+    with ThreadPoolExecutor(max_workers=4) as ex:
+        outs = list(ex.map(lambda k: ctx.run_cases('tasksexec%d' % k, ['Spec.BuildSpec', 'Model.Tasks', 'Model.TasksExec'],
+                                                   parts[k], shard=400), range(len(parts))))
+    if any(o is None for o in outs):
+        return                      # run_cases has recorded the failed stage
+    bad = [k * step + i for k, o in enumerate(outs) for i in o]
+    if bad:
+        r = members[bad[0]]
+        ctx.log('run_exec/implementation disagree on', [(members[i]['g'], members[i]['tk'], members[i]['req'], members[i]['out']) for i in bad[:3]])
+        ctx.failed_stages.append(('correspondence', 'Model.TasksExec.run_exec disagrees with TaskRunner.run on %d runs with raising tasks, '
+                                  'first: graph=%r tasks=%r targets=%r default=%r' % (len(bad), r['g'], r['tk'], r['req'], r['dflt'])))
+
+
 def regen(ctx):
     return None     # hand model: nothing to regenerate
 
 
 def run(ctx):
-    ok, _ = ctx.build(['Proofs/C34_tasks.vo', 'Model/Tasks.vo', 'Lib/Val.vo'])
+    ok, _ = ctx.build(['Proofs/C34_tasks.vo', 'Proofs/C34_exec.vo', 'Model/Tasks.vo', 'Model/TasksExec.vo', 'Lib/Val.vo'])
     if ok:
         ctx.check_props('Props/C34.v')
     present = replay_witnesses(ctx)
@@ -617,6 +844,7 @@ def run(ctx):
                     ctx.cov['evaluations'] += fam['count']
                     for f in fam['fails'][:6]:
                         report(ctx, fam['spec']['name'], f)
+    failing_stage(ctx)
     ctx.cov['exhaustive'] = False
 
 
@@ -637,6 +865,19 @@ def replay(rec):
     if 'graph' not in a:
         print(json.dumps(rec, indent=1))
         return 0
+    if 'tasks' in a:
+        code = ('import sys, json; sys.path.insert(0, %r)\n'
+                'import c34\n'
+                'env = c34._worker_setup()\n'
+                'g = [(n, ds) for n, ds in %r.items()]\n'
+                'tk = [(n, ts) for n, ts in %r.items()]\n'
+                'o, orders = c34.impl_run_fail(env, g, tk, %r, %r)\n'
+                'eff = %r or ([%r] if %r else [])\n'
+                'print("outcome:", o); why = c34.oracle_fail(g, tk, eff, o)\n'
+                'print("verdict:", why or "satisfies the property"); sys.exit(1 if why else 0)\n'
+                ) % (HERE, a['graph'], a['tasks'], a.get('targets', []), a.get('default'),
+                     a.get('targets', []), a.get('default'), a.get('default'))
+        return subprocess.run([sys.executable, '-c', code], env=impl_env()).returncode
     code = ('import sys, json; sys.path.insert(0, %r)\n'
             'import c34\n'
             'env = c34._worker_setup()\n'
@@ -655,11 +896,13 @@ MANIFEST = {
             'graph, request list and default target, the run history contains no target twice, is exactly the set of requested '
             'targets and their transitive dependencies, and lists every target after all of its dependencies; a TaskError is '
             'raised iff the reachable part has a cycle or an undefined target, and the error kind is truthful. Two further '
-            'theorems exhibit the violations of the original code (diamond reported as loop; partial-order sort misorders).',
+            'theorems exhibit the violations of the original code (diamond reported as loop; partial-order sort misorders). '
+            'Three more unbounded theorems cover the task loop when a task raises: no dependant of the failed target starts, every '
+            'dependency of a started target has completed, and a run without failure has run every task of exactly the reachable targets.',
     'note': 'trusted: Coq kernel; the hand model (compared on every run with the real Project/TaskRunner execution history over '
             'all labelled graphs on <= 3 targets, all graphs on 4 targets up to isomorphism (thorough; quick: loop-free classes + '
             'sample), <= 5 targets loop-free classes in the thorough tier, x all request subsets); names abstracted to integers; '
-            'tasks assumed not to fail; CPython 3.12 sort behaviour only for the refutation of the original code. No axioms.',
+            'order theorems: tasks assumed not to fail; task-loop theorems: a task returns or raises (compared per run with raising recording tasks), macro expansion of task arguments not modelled; CPython 3.12 sort behaviour only for the refutation of the original code. No axioms.',
     'technique': 'Coq proof over hand model + exhaustive small-graph differential correspondence + spec oracle',
 }
 
